@@ -142,16 +142,6 @@ func VH_C02_UploadStreamChunks() {
 	vAssertEqBytes("upload_same_info", ia.b, ib.b)
 }
 
-// Upload with a resource fork (fork count 3): data fork, then a 16-byte MACR header and the resource bytes.
-func c02UploadStream3(name, data, rsrc []byte) []byte {
-	s := c02UploadStream(name, data)
-	s[23] = 3 // fork count
-	s = append(s, 'M', 'A', 'C', 'R', 0, 0, 0, 0, 0, 0, 0, 0)
-	s = append(s, refU32(len(rsrc))...)
-	s = append(s, rsrc...)
-	return s
-}
-
 func VH_C02_UploadStreamWithResourceFork() {
 	name := vBytesN("name", 2)
 	data := vBytesN("data", 3)
